@@ -686,10 +686,18 @@ class QueryObjectDescriptor(CanBehaveLikeAVariable[T], ABC):
             yield bindings
             return
         var, remaining_vars = selected_vars[0], selected_vars[1:]
-        for var_val in var._evaluate__(copy(bindings)):
-            new_bindings = copy(bindings)
-            new_bindings.update(var_val)
-            yield from self._bind_selected_variables_one_after_the_other_(new_bindings, remaining_vars)
+        # a selected expression is evaluated on behalf of the descriptor, once for every binding made so far: what it
+        # has to keep apart is what the descriptor requires (e.g. the results of a sub-query inside it for one binding of
+        # the other selected variables are not duplicates of its results for another).
+        previous_eval_parent = var._eval_parent_
+        var._eval_parent_ = self
+        try:
+            for var_val in var._evaluate__(copy(bindings)):
+                new_bindings = copy(bindings)
+                new_bindings.update(var_val)
+                yield from self._bind_selected_variables_one_after_the_other_(new_bindings, remaining_vars)
+        finally:
+            var._eval_parent_ = previous_eval_parent
 
     def _warn_on_unbound_variables_(self, sources: Dict[int, HashedValue],
                                     selected_vars: Iterable[CanBehaveLikeAVariable]):
